@@ -210,3 +210,59 @@ func Parse(buf []byte) (*Msg, error) {
 	}
 	return m, nil
 }
+
+// --- fixtures for flattening (helpers that are not anchors get inlined)
+
+var ErrShort = errors.New("short")
+
+func readTwo(s *cryptobyte.String, a, b *uint8) bool {
+	if !s.ReadUint8(a) {
+		return false
+	}
+	return s.ReadUint8(b)
+}
+
+func decodePair(buf []byte) (uint8, uint8, error) {
+	s := cryptobyte.String(buf)
+	var a, b uint8
+	if !readTwo(&s, &a, &b) {
+		return 0, 0, ErrShort
+	}
+	if a == 0 {
+		return 0, 0, ErrBad
+	}
+	return a, b, nil
+}
+
+// FlatCaller is an anchor; decodePair and readTwo are not.
+func FlatCaller(buf []byte) (int, error) {
+	a, b, err := decodePair(buf)
+	if err != nil {
+		return 0, err
+	}
+	return int(a) + int(b), nil
+}
+
+// FlatClosure calls a local literal through its variable, from a nested literal.
+func FlatClosure(xs []int, f func(func())) int {
+	total := 0
+	add := func(x int) { total += x }
+	f(func() {
+		for _, x := range xs {
+			add(x)
+		}
+	})
+	return total
+}
+
+type acc struct{ n int }
+
+func (a *acc) bump(b *cryptobyte.Builder) { b.AddUint8(uint8(a.n)) }
+
+// FlatMethodValue passes a bound method as a builder callback.
+func FlatMethodValue(n int) ([]byte, error) {
+	a := &acc{n: n}
+	b := cryptobyte.NewBuilder(nil)
+	b.AddUint8LengthPrefixed(a.bump)
+	return b.Bytes()
+}
